@@ -15,7 +15,7 @@ From Clemens.C01Att Require Import FideFacts.
 From Clemens.C03Text Require Import GameReplay TextExamples.
 From Clemens.C03Recon Require Import FideText Recon.
 From ClemensGen Require Import GoConsts.
-From WipEngine Require Import EngBase EngDispatch EngState EngSearch.
+From Clemens.EngineE2E Require Import EngBase EngDispatch EngState EngSearch.
 Import ListNotations.
 Open Scope list_scope.
 
